@@ -603,8 +603,9 @@ pub fn check_c03(c: &CheckCtx, ix: &Index) {
                     }
                 }
                 None => {
-                    // never consumed by a stream that is still subscribed: it was overwritten
-                    if st.removed_call.is_none() {
+                    // Never consumed by a stream that was subscribed when X returned (its removal, if
+                    // any, began later): at that moment N+1 accepted values were unconsumed by it.
+                    {
                         violation(
                             p,
                             "capacity-exceeded",
